@@ -341,7 +341,12 @@ def run_comments(ctx):
         optional_close = last.get('op') == 'opt'
         core = last['p'] if optional_close else last
         arms = core['arms'] if core.get('op') == 'alt' else [core]
-        closers = [lit_of(a) for a in arms]
+        closers = []
+        for a in arms:
+            if a.get('op') == 'prim' and a.get('name') == 'line_ending':
+                closers += ['\n', '\r\n']          # nom's line_ending: LF or CR LF (not a lone CR)
+            else:
+                closers.append(lit_of(a))
         if None in closers or len(ps) != 3:
             # a closer searched by hand: the search must not have a fallback that accepts the rest of the input
             body_ast = f.item.get('body')
